@@ -580,3 +580,162 @@ def c18(tier, seed):
     c.assumptions = ['a NewSeqNo may extend over further numbers that have no stored message (statement silent)',
                      'a trailing gap fill beyond the requested range is tolerated (it skips nothing stored)']
     c.finish()
+
+
+# ---------------------------------------------------------------------------------------------------------
+# C19: inbound sequencing
+
+def corrupt(rng, raw, kind):
+    if kind == 'bad-checksum':
+        ck = int(raw[-4:-1])
+        return raw[:-4] + ('%03d' % ((ck + rng.randint(1, 255)) % 256)).encode() + b'\x01'
+    m = F.M(raw)
+    f = [(t, v) for t, v in m.fields if t not in (8, 9, 10)]
+    if kind == 'missing-mandatory':
+        f = [(t, v) for t, v in f if t != 55]       # Symbol
+    elif kind == 'unknown-tag':
+        f.append((rng.choice([20000, 9999, 6000]), 'x'))
+    elif kind == 'duplicate-field':
+        f.append((55, 'DUP'))
+    return F.frame(BEGIN, f)
+
+
+def hist_c19(out, sim, rng, n, extra):
+    s = Sess(sim, rng)
+    role = rng.choice('AI')
+    enforce = rng.choice([1, 1, 0])
+    own, peer = ('SRV', 'CLI') if role == 'A' else ('CLI', 'SRV')
+    r = s.new(role, own, peer, 30, rng.choice(['mem', 'none', 'file']), enforce=enforce, purge=1)
+    s.handshake(r, 30)
+    q = s.q()
+    if q.get('state') != 'continuous':
+        out.v('oracle:logon-failed', 'case %d: %s' % (n, q), s)
+        return
+    E = s.peer_seq              # the model's expected number
+    outstanding = False         # a resend request of the session is unanswered
+    ident = 0
+    trace = []
+    delivered_total = 0
+    for step in range(rng.randint(3, 40)):
+        k = rng.random()
+        ident += 1
+        cid = 'i%d_%d' % (n, ident)
+        kw = {}
+        kind = None
+        if k < 0.34:
+            kind, seq = 'in-sequence', E
+        elif k < 0.46:
+            kind, seq = 'ahead', E + rng.randint(1, 5)
+        elif k < 0.52 and E > 2:
+            kind, seq = 'low-no-possdup', rng.randint(1, E - 1)
+        elif k < 0.62 and E > 2:
+            kind, seq = 'low-possdup-ok', rng.randint(1, E - 1)
+            kw = dict(possdup=True, orig_ms=s.now - rng.choice([0, 1, 5000]))
+        elif k < 0.67 and E > 2:
+            kind, seq = 'low-possdup-noorig', rng.randint(1, E - 1)
+            kw = dict(possdup=True)
+        elif k < 0.73 and E > 2:
+            kind, seq = 'low-possdup-badtime', rng.randint(1, E - 1)
+            kw = dict(possdup=True, orig_ms=s.now + rng.choice([1000, 60000]))
+        elif k < 0.79:
+            kind, seq = 'wrong-compid', E
+            kw = dict(sender=peer + 'X') if rng.random() < 0.5 else dict(target=own + 'X')
+        elif k < 0.87:
+            kind, seq = 'corrupt-' + rng.choice(['bad-checksum', 'missing-mandatory', 'unknown-tag', 'duplicate-field']), E
+        elif k < 0.93:
+            kind, seq = 'header-value-contains-34=', E
+            kw = dict(pre=[(rng.choice([50, 57, 115, 128]), rng.choice(['34=%d' % (E + 3), 'A34=7', 'x34=1', '34=']))])
+        else:
+            kind, seq = 'sequence-reset-gapfill', E
+        if kind == 'sequence-reset-gapfill':
+            newseq = E + rng.randint(1, 4)
+            raw = s.peer_msg('4', [(123, 'Y'), (36, newseq)], seq=seq, possdup=True, orig_ms=s.now)
+        else:
+            raw = s.order(cid, seq=seq, **kw)
+            if kind.startswith('corrupt-'):
+                raw = corrupt(rng, raw, kind[8:])
+        trace.append('%s(%d|E=%d)' % (kind, seq, E))
+        if len(trace) == 6 and n % 37 == 0 and len(out.samples) < 3:
+            out.samples.append({'role': role, 'enforce': enforce, 'trace': list(trace), 'deliveries_so_far': delivered_total})
+        mark = len(s.wire)
+        r = s.inject(raw)
+        outs = s.wire[mark:]
+        deliv = r.delivered()
+        q = s.q()
+        ctx = 'case %d role=%s enforce=%d %s seq=%d model-expected=%d outstanding-resend=%s; trace=%s' % (n, role, enforce, kind, seq, E, outstanding, trace[-7:])
+        out.stat('inbound_messages')
+        out.distinct('situation', hash((kind, outstanding, enforce, seq - E if abs(seq - E) < 4 else 9)))
+        types = [m.type for m in outs]
+        terminated = q.get('shutdown') == '1'
+        # ---- deliveries must be justified
+        justified = kind in ('in-sequence', 'header-value-contains-34=', 'low-possdup-ok', 'low-possdup-noorig') or (kind == 'wrong-compid' and not enforce)
+        if deliv and not justified:
+            out.v('oracle:delivered-against-the-rule|' + kind, '%s: delivered %s' % (ctx, deliv), s)
+            return
+        if deliv and any(d[0] != cid for d in deliv):
+            out.v('oracle:delivered-something-else|' + kind, '%s: delivered %s' % (ctx, deliv), s)
+            return
+        delivered_total += len(deliv)
+        # ---- required reactions
+        if kind == 'ahead':
+            rr = [m for m in outs if m.type == '2']
+            if deliv:
+                pass
+            if not outstanding:
+                if not rr or rr[0].get(7) != str(E):
+                    out.v('oracle:no-resend-request-from-expected|ahead', '%s: outbound %s' % (ctx, [(m.type, m.get(7), m.get(16)) for m in outs]), s)
+                    return
+                outstanding = True
+            if terminated:
+                out.v('oracle:session-terminated-on-higher-number|ahead', ctx, s)
+                return
+        elif kind == 'low-no-possdup' or (kind == 'wrong-compid' and enforce):
+            if '5' not in types or not terminated:
+                out.v('oracle:no-logout-and-termination|' + kind, '%s: outbound types %s, shutdown=%s state=%s' % (ctx, types, q.get('shutdown'), q.get('state')), s)
+            return      # the session is (or should be) over
+        elif kind.startswith('corrupt-'):
+            if '3' not in types and not ('5' in types and terminated):
+                out.v('oracle:corrupt-message-not-rejected|' + kind, '%s: outbound types %s' % (ctx, types), s)
+                return
+            if terminated:
+                return
+            E = int(q['recv'])      # whether a rejected message consumes its number is not stated: follow the session
+            continue
+        elif kind in ('in-sequence', 'header-value-contains-34=') or (kind == 'wrong-compid' and not enforce):
+            E += 1
+            if outstanding and False:
+                pass
+        elif kind == 'sequence-reset-gapfill':
+            E = newseq
+            outstanding = False
+        if terminated and kind in ('in-sequence', 'header-value-contains-34=', 'low-possdup-ok', 'low-possdup-noorig', 'sequence-reset-gapfill'):
+            # C20's business in general, but a message the rule admits must not end the session when nothing else is wrong
+            if not outstanding:
+                out.v('oracle:session-terminated-on-admissible-message|' + kind, '%s: outbound types %s' % (ctx, types), s)
+            return
+        if terminated:
+            return
+        if outstanding and kind in ('in-sequence', 'header-value-contains-34='):
+            # with a resend outstanding the session's own expectation may legitimately differ from the model's until recovery (C20)
+            pass
+        s.adv(rng.choice([0, 5, 100]))
+    out.stat('deliveries', delivered_total)
+    if n % 101 == 0 and len(out.samples) < 3:
+        out.samples.append({'role': role, 'enforce': enforce, 'trace': trace[:20], 'deliveries': delivered_total})
+
+
+def c19(tier, seed):
+    c = Check('C19', tier, seed)
+    drive(c, 'hist_c19', 3000 if c.quick else 150000)
+    c.evaluations = c.stats.get('inbound_messages', 0)
+    c.distinct_names = ['situation']
+    c.rule = ('inbound histories of 3..40 application messages on an established Session (acceptor/initiator, CompID enforcement on/off): in '
+              'sequence, ahead, lower without PossDup, lower with PossDup and OrigSendingTime earlier / absent / later, wrong Sender/TargetCompID, '
+              'corrupt (checksum, missing mandatory field, unknown tag, duplicate), header values containing "34=" before MsgSeqNum, inbound gap '
+              'fills; an independent receive model (expected number advances only on an in-sequence message or a SequenceReset) decides for each '
+              'message: a router callback (delivery) must be justified by the rule; a higher number must produce ResendRequest(BeginSeqNo=expected) '
+              'unless one is outstanding and must not end the session; too-low/wrong-CompID must produce Logout + termination without delivery; '
+              'corrupt messages must be answered by Reject (or Logout) without delivery; evaluations = inbound messages; distinct = situations')
+    c.assumptions = ['delivery = the application router callback ran (handle_application uses the documented idiom enforce(...) || msg->process(router))',
+                     'one-directional: non-delivery of an admissible message is C20\'s business', 'whether a rejected message consumes its number is not stated: the model follows the session there']
+    c.finish()
